@@ -623,6 +623,23 @@ def _read_percolator(ctx, f):
               "the reserved set starts as id, scan, peptide, proteins, "
               "label", f"metadata_columns starts as "
               f"{[show(x, 200) for x in sp_n[:2]]}", node=ctor[0])
+    # ---- every optional reserved column that was found is in the set:
+    # the lookup result (the term handed to the constructor) occurs in the
+    # expression of the reserved set - a column left out becomes a feature
+    if NONFEAT is not None:
+        members = set(walk_term(NONFEAT))
+        for formal in ("filename_column", "calcmass_column",
+                       "expmass_column", "rt_column"):
+            t = got.get(formal)
+            if t is None:
+                continue
+            ctx.check(t in members, "C10c-optional-columns-reserved",
+                      f, f"the {formal} lookup is a member of the reserved "
+                      "(metadata) set",
+                      f"{show(t, 90)} does not occur in metadata_columns = "
+                      f"{show(NONFEAT, 200)}: when the table has that "
+                      "column it is handed to the model as a feature",
+                      node=ctor[0])
     # ---- features: file columns that are not reserved, minus the NaN
     # report, unconditionally
     fc = got.get("feature_columns")
